@@ -55,6 +55,7 @@ def run(ctx):
     rule_po(ctx, F)
     rule_ident(ctx, F)
     rule_mixed(ctx, F)
+    rule_lenfirst(ctx, F)
     import c03
     c03.rule_flag(ctx, F)   # representation independence needs a truthful `compressed` flag (as_flat_slice fast paths)
     import c02
@@ -934,3 +935,44 @@ def rule_mixed(ctx, F):
                "%s::%s answers the bare comparison of the two record types for values of different variants, and the type of "
                "the Unknown variant is data: Unknown(TYPE1, c0000201) and A(192.0.2.1) are `Equal` although `==` says they "
                "differ (a sorted record collection drops one of them as a duplicate)" % (adt.split("::")[-1], meth))
+
+
+LEN_PREFIXED = re.compile(r"^(rdata::nsec3::Nsec3Salt|rdata::nsec3::OwnerHash|base::charstr::CharStr|rdata::caa::CaaTag)\b")
+
+
+def rule_lenfirst(ctx, F):
+    """A field that goes onto the wire behind its own length octet (NSEC3 salt and owner hash, character strings, CAA tag)
+    orders, in canonical order, by that length octet first: in every `canonical_cmp` of a record-data type such a field is
+    compared through the field type's own canonical_cmp (which is length-first), never as a plain octet slice
+    (`ab` < `aabb` in canonical form, `aabb` < `ab` as slices)."""
+    R = "C04.lenfirst"
+    ctx.floor(R, 6)
+    n = 0
+    for im in F.impls:
+        if im["trait"] != CORD or not (im["self_adt"] or "").startswith("rdata::"):
+            continue
+        adt = F.adts.get(im["self_adt"])
+        if not adt or not adt.get("variants") or len(adt["variants"]) != 1:
+            continue
+        ftypes = {(f["name"] if isinstance(f, dict) else f): (f.get("ty", "") if isinstance(f, dict) else "") for f in adt["variants"][0].get("fields", [])}
+        for it in im["items"]:
+            b = F.bodies.get(it["path"])
+            if b is None or it["name"] != "canonical_cmp":
+                continue
+            seen = set()
+            for sb, bi, what, x, y in sigs.compare_sites(b, F):
+                ap = access_path(b, x)
+                if not ap or ap[0] != 1 or not ap[1]:
+                    continue
+                fld = ap[1][0]
+                ty = ftypes.get(fld, "")
+                if not LEN_PREFIXED.match(ty) or fld in seen:
+                    continue
+                seen.add(fld)
+                n += 1
+                ctx.ob(R, b, "%s.%s is compared length first" % (im["self_adt"].split("::")[-1], fld), what == "canonical_cmp",
+                       "%s::canonical_cmp compares the field `%s` (%s, written behind a length octet) with `%s`: for values of "
+                       "different length the result is not the order of the canonical wire forms, so an RRset with two such "
+                       "records is signed in an order validators do not reproduce" % (im["self_adt"].split("::")[-1], fld, ty.split("<")[0].split("::")[-1], what),
+                       sb.where(bi))
+    ctx.call_sites += n
